@@ -40,11 +40,11 @@ int main(int argc, char ** argv) {
         hc::begin_case(std::to_string(idx));
         wd::arm(dfsmode ? 1200 : 60, "c16c");
         Rng r(Rng::mix(seed ^ 0xC16C, (uint64_t)idx));
-        uint32_t cap = 1 + r.below(3); uint32_t n = r.below(5); int xkind = r.below(4);
-        if (dfsmode) { cap = 1 + (uint32_t)(idx % 3); n = (uint32_t)((idx / 3) % 4); xkind = (int)((idx / 12) % 4); } bool xabort = xkind == 1; bool xfull = xkind == 2; bool xsmall = xkind == 3 && n > 0; uint32_t xk = xsmall ? r.below(n) : 0; int xdelay = dfsmode ? 0 : r.below(12);   // X: 0 setFileSize(tellp), 1 abort, 2 setFileSize(n) = total length declared up front
+        uint32_t cap = 1 + r.below(3); uint32_t n = r.below(5); int xkind = r.below(5);
+        if (dfsmode) { cap = 1 + (uint32_t)(idx % 3); n = (uint32_t)((idx / 3) % 4); xkind = (int)((idx / 12) % 5); } bool xabort = xkind == 1; bool xfull = xkind == 2; bool xsmall = xkind == 3 && n > 0; bool xraise = xkind == 4; uint32_t capmax = xraise ? cap + 1 + (uint32_t)(idx % 3) : cap;   /* 4: the capacity is raised while the session runs (the producer may be blocked at the old limit), the end is declared once the producer is done */ uint32_t xk = xsmall ? r.below(n) : 0; int xdelay = dfsmode ? 0 : r.below(12);   // X: 0 setFileSize(tellp), 1 abort, 2 setFileSize(n) = total length declared up front
         // 3: once the producer is done, a size BELOW the number written is declared (the consumer may already be blocked on the empty queue)
         int strategy = r.chance(3, 4) ? SCHED_RANDOM : SCHED_FAVOUR; int sparam = r.below(3);
-        std::ostringstream cfg; cfg << "cap=" << cap << " n=" << n << " x=" << (xabort ? std::string("abort") : xfull ? std::string("setFileSize(n)") : xsmall ? "after-producer:setFileSize(" + std::to_string(xk) + ")" : std::string("setFileSize(tellp)")) << (idx % 2 ? " spurious" : "") << " delay=" << xdelay << " strategy=" << strategy << "/" << sparam;
+        std::ostringstream cfg; cfg << "cap=" << cap << " n=" << n << " x=" << (xabort ? std::string("abort") : xfull ? std::string("setFileSize(n)") : xsmall ? "after-producer:setFileSize(" + std::to_string(xk) + ")" : xraise ? "setBufferSize(" + std::to_string(capmax) + ");after-producer:setFileSize(tellp)" : std::string("setFileSize(tellp)")) << (idx % 2 ? " spurious" : "") << " delay=" << xdelay << " strategy=" << strategy << "/" << sparam;
         static std::string ctx; ctx = cfg.str() + " case=" + std::to_string(idx);
         sched_on_violation = [](const char * kind, const char * key, const char * report) {
             std::string rr = report; for (auto & ch : rr) if (ch == '\n') ch = '|';
@@ -69,7 +69,8 @@ int main(int argc, char ** argv) {
             });
             std::thread X([&] {
                 std::mutex m; for (int i = 0; i < xdelay; i++) { std::lock_guard<std::mutex> l(m); }   // scheduling points
-                if (xsmall) { std::unique_lock<std::mutex> l(pm); pcv.wait(l, [&] { return pdone; }); }
+                if (xraise) q.setBufferSize(capmax);
+                if (xsmall || xraise) { std::unique_lock<std::mutex> l(pm); pcv.wait(l, [&] { return pdone; }); }
                 xev.op = xabort ? ABORT : SETSIZE; xev.call = sched_steps();
                 if (xabort) q.abort(); else { xev.val = xfull ? n : xsmall ? xk : q.tellp(); q.setFileSize(xev.val); }
                 xev.ret = sched_steps(); xev.done = true;
@@ -113,7 +114,7 @@ int main(int argc, char ** argv) {
             if (aborted_before) continue;
             long reads_called = 0; for (auto & e : rlog) if (e.call <= wlog[i].ret) reads_called++;
             cap_checks++;
-            if ((long)(i + 1) - reads_called > (long)cap) viol("capacity-exceeded", "write " + std::to_string(i + 1) + " returned with only " + std::to_string(reads_called) + " reads called, capacity " + std::to_string(cap));
+            if ((long)(i + 1) - reads_called > (long)capmax) viol("capacity-exceeded", "write " + std::to_string(i + 1) + " returned with only " + std::to_string(reads_called) + " reads called, capacity " + std::to_string(cap));
         }
         // (iii) null implies drained: every write that returned before the read was called has been delivered
         for (auto & e : rlog) if (e.val == 0) {
